@@ -1,4 +1,5 @@
 #!/bin/bash
+export VERIF_EVIDENCE_DIR=/verif/.cache/seed-evidence
 # every seeded change x its own check x seeds 1..3: how often is it caught with a concrete failing input
 cd /verif
 OUT=/verif/.cache/seed_robust.log
